@@ -178,5 +178,13 @@ def run(P, R):
     ok = len(c) == 1 and [ast.unparse(a) for a in c[0].args] == ['status.identifier', 'event']
     R.check(r4, ok, 'a process event updates the entry of its sender', 'accept|update_info-target', u.loc(),
             'on_process_state_event calls update_info(%s)' % [', '.join(ast.unparse(a) for a in x.args) for x in c])
+    # R5: what every instance computes from the same reports: the "running" vocabulary, and the invalidation of the
+    # processes of a lost instance
+    r5 = R.rule('R5', 'definitions (shared with C05, C09, C11)', 'running() is state in RUNNING_STATES; running_on(i) is '
+                'running() and i in running_identifiers; an instance lists as running every process for which '
+                'running_on(its identifier), whatever its own state: these decide which processes are declared lost with '
+                'an instance, identically on every instance', 4)
+    from . import shared
+    shared.running_definitions(P, R, r5)
     R.assume('Equality of N replicated databases under all interleavings, and truth w.r.t. the real Supervisors, are '
              'NOT decided; R1-R4 are the structural conditions for it.')
